@@ -2,6 +2,8 @@
 from vlib import engine
 from vlib.engine import ModelRun
 from checks.c03 import C03
+from checks.c15 import C15, AG, LS
+from checks.c16 import C16, A as DDA
 from checks.c17 import C17
 from checks.deferred_common import DeferredBase
 from checks.guarded_common import GuardedBase, P, conf
@@ -64,7 +66,48 @@ class C20Holder(C17):
                              ('111;601/1111;901', {'predthrow': 1}, 200000, 'pb2'), ('11;601/22;1001;1111/901', {'predthrow': 3}, 8000, 'random')]}
 
 
-PARTS = [C20Lr(), C20Guarded(), C20Deferred(), C20Holder()]
+class C20Atomic(C15):
+    """the wrapped type's copy / assignment throws inside atomic_guarded and the whole-object load / store / operator= of the lock
+    based wrappers: the call raises, has no effect, the lock is released (later calls of every thread complete) and the
+    history stays linearizable (RegSeq: result 99 = threw, state unchanged)"""
+    pid = 'C20'
+    tags = ('C20', 'C15')
+    monitors = [('AtomicRegisterMon.tla', 'AtomicRegisterMon.cfg')]
+    trace_spec = None          # the algorithm-level model has no throwing copies; the sequential meaning (RegSeq) has
+    conf = None
+    confs = None
+    models = {'quick': [], 'thorough': []}
+    programs = {'quick': [('%s;%s/%s;%s/%s' % ((AG,) * 5), {'wrap': 0, 'mk': 0, 'copythrows': 2}, 600, 'random'),
+                          ('%s;%s/%s;%s' % ((LS,) * 4), {'wrap': 1, 'mk': 1, 'copythrows': 1}, 300, 'random'),
+                          ('%s;%s/%s;%s/0;0' % ((LS,) * 4), {'wrap': 3, 'mk': 3, 'copythrows': 2}, 400, 'random'),
+                          ('301;0/302;0', {'wrap': 0, 'mk': 0, 'copythrows': 1}, 3000, 'pb1')],
+                'thorough': [('%s;%s/%s;%s/%s' % ((AG,) * 5), {'wrap': 0, 'mk': 0, 'copythrows': 2}, 15000, 'random'),
+                             ('%s;%s/%s;%s' % ((LS,) * 4), {'wrap': 1, 'mk': 1, 'copythrows': 2}, 8000, 'random'),
+                             ('%s;%s/%s;%s' % ((LS,) * 4), {'wrap': 2, 'mk': 0, 'copythrows': 2}, 8000, 'random'),
+                             ('%s;%s/%s;%s/0;0' % ((LS,) * 4), {'wrap': 3, 'mk': 3, 'copythrows': 2}, 10000, 'random'),
+                             ('301;0/302;0/401;0', {'wrap': 0, 'mk': 0, 'copythrows': 2}, 200000, 'pb2')]}
+
+
+class C20DD(C16):
+    """the pre-destruction callback of DelayedDestructor throws (a std::exception or something else): destroyObjects swallows it,
+    the objects of the batch are still destroyed exactly once and outside the lock, the container stays usable"""
+    pid = 'C20'
+    tags = ('C20', 'C16')
+    monitors = [('DelayedDestructorMon.tla', 'DelayedDestructorMon.cfg')]
+    confs = None
+    conf = None
+    models = {'quick': [ModelRun('DelayedDestructorMC.tla', 'DD_throw.cfg', workers=16, note='every callback invocation may throw')],
+              'thorough': [ModelRun('DelayedDestructorMC.tla', 'DD_throw.cfg', workers=16)]}
+    programs = {'quick': [('%s;%s;%s/%s;%s/2,3' % ((DDA,) * 5), {'cb': 1, 'reenter': 0, 'locked': 1, 'cbthrow': 1}, 400, 'random'),
+                          ('%s;%s;%s/%s;%s/2,3' % ((DDA,) * 5), {'cb': 1, 'reenter': 1, 'locked': 1, 'cbthrow': 2}, 400, 'random'),
+                          ('4;4;2;3;2', {'cb': 1, 'reenter': 0, 'locked': 0, 'cbthrow': 2}, 100, 'random')],
+                'thorough': [('%s;%s;%s/%s;%s/2,3' % ((DDA,) * 5), {'cb': 1, 'reenter': 0, 'locked': 1, 'cbthrow': 1}, 10000, 'random'),
+                             ('%s;%s;%s/%s;%s/2,3' % ((DDA,) * 5), {'cb': 1, 'reenter': 1, 'locked': 1, 'cbthrow': 2}, 10000, 'random'),
+                             ('4;4;2;3;2', {'cb': 1, 'reenter': 0, 'locked': 0, 'cbthrow': 2}, 500, 'random'),
+                             ('4;4;2/0;2;3', {'cb': 1, 'reenter': 0, 'locked': 1, 'cbthrow': 2}, 200000, 'pb2')]}
+
+
+PARTS = [C20Lr(), C20Guarded(), C20Deferred(), C20Holder(), C20Atomic(), C20DD()]
 DEF = PARTS[0]
 DEF2 = PARTS[1]
 
